@@ -18,6 +18,7 @@ Stream class definition module
 """
 
 import itertools as it
+import sys
 from collections import deque
 try:
   from collections.abc import Iterable
@@ -289,7 +290,7 @@ class Stream(meta(Iterable, metaclass=StreamMeta)):
       return constructor(self._data)
     if isinstance(n, float):
       n = rint(n) if n > 0 else 0 # So this works with -inf and nan
-    return constructor(it.islice(self._data, max(n, 0)))
+    return constructor(it.islice(self._data, min(max(n, 0), sys.maxsize)))
 
   def copy(self):
     """
@@ -332,7 +333,7 @@ class Stream(meta(Iterable, metaclass=StreamMeta)):
 
     """
     def skipper(data):
-      for _ in it.islice(data, max(int(round(n)), 0)):
+      for _ in it.islice(data, min(max(int(round(n)), 0), sys.maxsize)):
         pass
       for el in data:
         yield el
@@ -345,7 +346,7 @@ class Stream(meta(Iterable, metaclass=StreamMeta)):
     Enforces the Stream to finish after ``n`` items.
     """
     data = self._data
-    self._data = it.islice(data, max(int(round(n)), 0))
+    self._data = it.islice(data, min(max(int(round(n)), 0), sys.maxsize))
     return self
 
   def __getattr__(self, name):
